@@ -185,6 +185,33 @@ def _from_namespace(e, tainted):
     return False
 
 
+def parse_args_source(ctx, chk, rule, qual=None):
+    """The parameters are those of *this* invocation: `parse_args()` reads sys.argv when called, `parse_args(argv)` reads what the
+    caller passes; a parameter default such as `argv=sys.argv[1:]` is evaluated once, when the module is imported - a later call of
+    main() without arguments then parses the command line of that moment, whatever sys.argv holds now."""
+    f = ctx.func(qual or (GEN + "::main"))
+    calls = [c for c in walk_no_nested_defs(f.node) if isinstance(c, ast.Call) and isinstance(c.func, ast.Attribute) and c.func.attr in ("parse_args", "parse_known_args")]
+    if not calls:
+        chk.undecided(rule, f.where(), "no parse_args call in %s" % f.short)
+        return
+    for c in calls:
+        a = c.args[0] if c.args else next((k.value for k in c.keywords if k.arg == "args"), None)
+        if a is None or (isinstance(a, ast.Constant) and a.value is None):
+            chk.ok(rule, f.where(c), "`%s` reads the command line of the running process at the time of the call" % src(c))
+        elif isinstance(a, ast.Name) and a.id in f.params:
+            d = f.defaults.get(a.id)
+            if d is None or (isinstance(d, ast.Constant) and d.value is None):
+                chk.ok(rule, f.where(c), "`%s`: the arguments are handed in by the caller (default None = the process's command line at call time)" % src(c))
+            elif isinstance(d, ast.Constant) or (isinstance(d, (ast.Tuple, ast.List)) and all(isinstance(x, ast.Constant) for x in d.elts)):
+                chk.undecided(rule, f.where(c), "`%s`: the default of `%s` is the fixed list `%s`" % (src(c), a.id, src(d)))
+            else:
+                chk.violation(rule, f.where(), "the default `%s=%s` of %s is evaluated once, when the module is imported: a later call %s() parses the command line of that moment, "
+                              "not the current one - every such call generates the same board under the same name, whatever parameters are given" % (a.id, src(d), f.short, f.short),
+                              expected="%s=None (resolved at call time)" % a.id, found="%s=%s" % (a.id, src(d)), construct="%s default arguments frozen at import" % f.short)
+        else:
+            chk.undecided(rule, f.where(c), "`%s`: where the parsed arguments come from is not recognised" % src(c))
+
+
 def r2_order(ctx, chk, rule="C15.2"):
     f = ctx.func(GEN + "::main")
     cfg = ctx.cfg(f)
@@ -208,6 +235,43 @@ def r2_order(ctx, chk, rule="C15.2"):
         if isinstance(c, ast.Call) and call_name(c) in ("open", "os.makedirs", "os.mkdir") and not cfg.dominates(ci[0], c):
             chk.violation(rule, f.where(c), "`%s` runs before check_input" % src(c), expected="nothing written before validation", found=norm_stmt(cfg.stmt_of(c)),
                           construct="main writes before check_input")
+    # ... including what runs before check_input without being written in main: helpers that main calls earlier, and the `type=`
+    # callables of the parser (argparse runs them inside parse_args, and on string defaults too)
+    FS_WRITERS = ("os.makedirs", "os.mkdir", "os.remove", "os.rename", "os.replace", "os.rmdir", "shutil.rmtree", "shutil.move", "shutil.copy", "os.unlink")
+
+    def writes_files(h):
+        for k in ctx.cg.reachable([h]):
+            for c in walk_no_nested_defs(k.node):
+                if isinstance(c, ast.Call) and (call_name(c) in FS_WRITERS or (isinstance(c.func, ast.Attribute) and c.func.attr in ("mkdir", "touch", "write_text", "unlink"))):
+                    return k, c
+                if isinstance(c, ast.Call) and call_name(c) == "open":
+                    mode = c.args[1] if len(c.args) > 1 else next((kw.value for kw in c.keywords if kw.arg == "mode"), None)
+                    if isinstance(mode, ast.Constant) and isinstance(mode.value, str) and any(ch in mode.value for ch in "wax+"):
+                        return k, c
+        return None
+    early = []
+    for call, callees in ctx.cg.call_sites(f):
+        if callees and call is not ci[0] and not cfg.dominates(ci[0], call):
+            for h in callees:
+                if h.name != "check_input":
+                    early.append((h, "`%s` in main()" % src(call)[:50]))
+    ip = [h for h in ctx.prog.all_funcs((GEN,)) if not h.cls and h.name == "init_parser"]
+    for h in ip:
+        for c in walk_no_nested_defs(h.node):
+            if isinstance(c, ast.Call) and isinstance(c.func, ast.Attribute) and c.func.attr == "add_argument":
+                for kw in c.keywords:
+                    if kw.arg in ("type", "action") and isinstance(kw.value, ast.Name) and kw.value.id in h.mod.funcs:
+                        early.append((h.mod.funcs[kw.value.id], "the `%s=%s` callable of option %s (argparse runs it while parsing)" % (kw.arg, kw.value.id, src(c.args[0]) if c.args else "?")))
+    seen_early = set()
+    for h, how in early:
+        if h.qual in seen_early:
+            continue
+        seen_early.add(h.qual)
+        w = writes_files(h)
+        if w is not None:
+            chk.violation(rule, w[0].where(w[1]), "`%s` changes the file system and is reached through %s, before check_input has accepted the parameters: refused parameters leave "
+                          "a directory / file behind" % (src(w[1])[:60], how), expected="nothing written before validation", found=norm_stmt(ctx.cfg(w[0]).stmt_of(w[1])),
+                          construct="%s writes before check_input" % w[0].short)
     # parsed values flow under their own names: local p = parsed_args.p, check_input(p...) in parameter order
     sx = SymX(ctx, f, inline_depth=0).run()
     g = ctx.func(GEN + "::check_input")
@@ -736,6 +800,8 @@ def r45_shape_values(ctx, chk, rule4="C15.4", rule5="C15.5", rule6="C15.6"):
         return
     rr = (("call", "random.randrange", (C(0), gw), ()), ("call", "random.randrange", (gw,), ()))
 
+    forced_extra = {}
+
     def row_of(flag):
         t = assume(u, gfd, flag)
         # bool(flag) / table[flag] after the flag is fixed
@@ -744,6 +810,10 @@ def r45_shape_values(ctx, chk, rule4="C15.4", rule5="C15.5", rule6="C15.6"):
             return None, None
         row = t[2][1][0]
         forced = None
+        if row[0] == "ite" and row[2][0] == "setitem" and row[3] == row[2][1]:
+            # the tile is forced only under a further condition (on the width, ...)
+            forced_extra[flag] = row[1]
+            row = row[2]
         if row[0] == "setitem":
             forced = (row[2], row[3])
             row = row[1]
@@ -768,7 +838,11 @@ def r45_shape_values(ctx, chk, rule4="C15.4", rule5="C15.5", rule6="C15.6"):
     else:
         chk.violation(rule5, g.where(L.node), "without force_down a row is drawn from %s%s" % (pf, " and a tile is forced to %s" % show(free_forced[1]) if free_forced else ""),
                       expected="choices([0,1,2], k=width)", found=str(pf), construct="get_random_moves free population")
-    if sorted(pd) == [0, 1, 2, 3] and forced_set is not None and forced_set[0] in rr and forced_set[1] == C(3):
+    if True in forced_extra:
+        chk.violation(rule5, g.where(L.node), "with force_down the down-only tile of a row is forced only if `%s`: rows for which that fails (a one-column board) can come out without any "
+                      "down-only tile although force_down is set" % show(forced_extra[True]), expected="one forced 3 in every row", found=show(forced_extra[True]),
+                      construct="get_random_moves conditional forcing")
+    elif sorted(pd) == [0, 1, 2, 3] and forced_set is not None and forced_set[0] in rr and forced_set[1] == C(3):
         chk.ok(rule5, g.where(L.node), "with force_down every row is random.choices([0, 1, 2, 3], k=width) and one position randrange(0, width) is set to 3: at least one down-only tile per row")
     else:
         chk.violation(rule5, g.where(L.node), "with force_down a row is drawn from %s with forced tile %s; specification: population [0,1,2,3] and one position in range(width) forced to 3" % (
@@ -811,6 +885,7 @@ def reward_formula(val, U, m):
 def run(ctx, chk):
     r1_ranges(ctx, chk)
     r2_order(ctx, chk)
+    parse_args_source(ctx, chk, "C15.2")
     r3_reproducible(ctx, chk)
     r3b_no_hash_order(ctx, chk)
     r3c_no_generator_state(ctx, chk)
